@@ -314,6 +314,44 @@ def reduce_groups(base, groups, mode):
     return out
 
 
+_TOK = re.compile(r'[A-Za-z_]\w*|\d+|\S')
+
+
+def local_renaming(base, cur, m):
+    """-> {old: new} or {}.  Only a pure renaming of locals declared in the baseline text is recognised: all differing aligned line pairs
+    have the same token structure and differ in identifier tokens only, consistently, injectively, and no new name occurs in the baseline."""
+    declared = set()
+    for l in base:
+        for mm in re.finditer(r'\blet\s+(?:mut\s+)?([a-z_]\w*)\b|\bfor\s+([a-z_]\w*)\s+in\b', l):
+            declared.add(mm.group(1) or mm.group(2))
+    ren = {}
+    unmatched = 0
+    for i, j in enumerate(m):
+        if j is None:
+            if base[i].strip():
+                unmatched += 1
+            continue
+        a, b = base[i].strip(), cur[j].strip()
+        if a == b:
+            continue
+        ta, tb = _TOK.findall(a), _TOK.findall(b)
+        if len(ta) != len(tb):
+            return {}
+        for x, y in zip(ta, tb):
+            if x == y:
+                continue
+            if x not in declared or not re.match(r'[a-z_]\w*$', y):
+                return {}
+            if ren.setdefault(x, y) != y:
+                return {}
+    if unmatched or not ren or len(set(ren.values())) != len(ren):
+        return {}
+    base_words = set(w for l in base for w in _TOK.findall(l))
+    if any(v in base_words for v in ren.values()):
+        return {}
+    return ren
+
+
 def transplant(base, annotated, cur, where, mode=None):
     groups = embed(base, annotated, where)
     early = mode == 'early'
@@ -339,6 +377,13 @@ def transplant(base, annotated, cur, where, mode=None):
             out.append((indent + '{ unimplemented!() }', False))
             return out
     m = align(base, cur)
+    # R22 (renamed locals): when every aligned line pair that differs does so only by one consistent substitution of identifiers that the
+    # baseline declares as locals (`let`, `let mut`, `for x in`), the contract lines follow the renaming.  Annotations are ghost text:
+    # a wrong substitution can make a proof fail, never make an unsound one pass.
+    ren = local_renaming(base, cur, m)
+    if ren:
+        pat = re.compile(r'\b(' + '|'.join(re.escape(k) for k in ren) + r')\b')
+        groups = [[pat.sub(lambda mm: ren[mm.group(1)], a) for a in g] for g in groups]
     out = []          # (line, is_real)
     emitted = 0       # groups[0..emitted) already written
     j_done = 0
@@ -460,6 +505,23 @@ def assemble(template_path, repo=None, learn=False, modes=None):
                 raise AssembleError('%s: no baseline stored (run --learn)' % where)
             b_raw = base[r.key]
         rnotes = []
+        # R22 (alpha-renaming of locals): if the current text is the baseline text with locals (declared by `let` / `for` in the baseline)
+        # consistently renamed to fresh names, and nothing else differs, the renaming is undone before assembly; the item counts as changed
+        # (it is recorded), but the verified text differs from the source by that renaming of bound variables only
+        renamed = None
+        if raw != b_raw and raw.count('\n') == b_raw.count('\n'):
+            bl, cl = b_raw.split('\n'), raw.split('\n')
+            ren = local_renaming(bl, cl, list(range(len(bl))))
+            if ren:
+                inv = {v: k for k, v in ren.items()}
+                pat = re.compile(r'\b(' + '|'.join(re.escape(k) for k in inv) + r')\b')
+                if pat.sub(lambda mm: inv[mm.group(1)], raw) == b_raw:
+                    renamed = ren
+                    rnotes.append('R22: locals renamed (%s); the renaming was undone before assembly' % ', '.join('%s -> %s' % kv for kv in sorted(ren.items())))
+                    rec['changed_since_baseline'] = True
+                    rec['change_size'] = 0
+                    rec['alpha_renamed'] = ren
+                    raw = b_raw
         b_lines, _ = prepare(b_raw, r, rnotes, strict=True)
         mode = (modes or {}).get(r.label)
         if mode:
